@@ -199,8 +199,9 @@ Proof.
       remember (strip t) as lhs eqn:El.
       assert (Su : strip u = u) by (destruct (nonclean_expr_shape u Eu Cu) as [->|[us [-> _]]]; reflexivity).
       rewrite Su in H.
-      destruct (cmp true n None lhs u) as [[|]|] eqn:E; try discriminate.
-      { apply (F None lhs u); auto. }
+      destruct (if is_list_ty lhs && is_list_ty u then Some false else cmp true n None lhs u) as [[|]|] eqn:E;
+        try discriminate.
+      { destruct (is_list_ty lhs && is_list_ty u); [discriminate|]. apply (F None lhs u); auto. }
       assert (Nl : is_nil_ty lhs = false) by (apply clean_not_nil; exact Cl).
       destruct (nonclean_expr_shape u Eu Cu) as [->|[us [-> Eus]]].
       * (* supplied `nil` *)
@@ -238,8 +239,9 @@ Proof.
       remember (strip t) as rhs eqn:Er.
       assert (Su : strip u = u) by (destruct (nonclean_expr_shape u Eu Cu) as [->|[us [-> _]]]; reflexivity).
       rewrite Su in H.
-      destruct (cmp true n None u rhs) as [[|]|] eqn:E; try discriminate.
-      { apply (B None u rhs); auto. }
+      destruct (if is_list_ty u && is_list_ty rhs then Some false else cmp true n None u rhs) as [[|]|] eqn:E;
+        try discriminate.
+      { destruct (is_list_ty u && is_list_ty rhs); [discriminate|]. apply (B None u rhs); auto. }
       assert (Nr : is_nil_ty rhs = false) by (apply clean_not_nil; exact Cr).
       destruct (nonclean_expr_shape u Eu Cu) as [->|[us [-> Eus]]].
       * (* the value is `nil` *)
